@@ -157,4 +157,24 @@ def check(repo: Repo, rep: Report) -> None:
     ok = any(isinstance(s.node, ast.Return) and isinstance(s.node.value, ast.Call) and dotted(s.node.value.func) == "self.schedule_absolute"
              and "self.now +" in u(s.node.value.args[0]) and [u(a) for a in s.node.value.args[1:]] == sr.params[2:4] for s in sites(sr))
     rep.ob("E1-eventloop-guards", sr, "relative = absolute(now + max(0, duetime))", ok, "the relative form does not schedule at now + delay")
+    # boundary agreement: an item due exactly now is ready — at scheduling time (`dt <= now`) and in the loop (`due > time` stops)
+    rn = repo.fn(EL, "EventLoopScheduler.run")
+    from ..astutil import compare_norm as _cn
+    stops = []
+    for x in sites(rn):
+        if isinstance(x.node, ast.Break):
+            for e, p_ in x.ctx.guards:
+                if p_ and isinstance(e, ast.Compare) and len(e.ops) == 1 and any(isinstance(y, ast.Name) and y.id in ("time", "now") or u(y).endswith(".now") for y in (e.left, e.comparators[0])):
+                    stops.append((x, e))
+    okb = False
+    for x, e in stops:
+        l, r = e.left, e.comparators[0]
+        opn = type(e.ops[0]).__name__
+        time_left = (isinstance(l, ast.Name) and l.id in ("time", "now")) or u(l).endswith(".now")
+        if time_left:
+            opn = {"Lt": "Gt", "LtE": "GtE", "Gt": "Lt", "GtE": "LtE"}.get(opn, opn)
+        okb = okb or opn == "Gt"
+    rep.ob("E1-eventloop-guards", rn, f"run(): gathering stops at the first item with `due > now` (strict) ({[short(e, 30) for _, e in stops]})", bool(stops) and okb,
+           "the event loop treats an item due exactly now as not yet due (`>=`): it is neither moved to the ready list nor waited for (0 s left), "
+           "so the loop spins without ever running it — and schedule_absolute, which takes `dt <= now` as ready, disagrees on the boundary")
     rule_invoke_guard(repo, rep, "S1-invoke-guard")
